@@ -11,7 +11,7 @@ from ..fold import known
 from ..model import Class, Func, own_nodes, src
 from ..pathsem import function_paths, resolve_local
 from ..typeinf import classes_of, elem, members
-from .common import chain, deep_resolve, loop_body_paths, mentions, single_env
+from .common import chain, deep_resolve, loop_body_paths, mentions, possible_values, single_env
 from .keys import DATA_CLASSES, reinit_sites
 
 PROPERTY = "C02"
@@ -294,11 +294,8 @@ def fact_platform_range(ctx: Ctx, rep: Report) -> Set[str]:
     rets: Set[str] = set()
     for n in own_nodes(ip.node):
         if isinstance(n, ast.Return) and n.value is not None:
-            v = ctx.folder.fold(n.value, ip.module)
-            if known(v) and isinstance(v, str):
-                rets.add(v)
-            else:
-                rets.add("<unfoldable>")
+            for v in possible_values(ctx, ip, n.value, n):
+                rets.add(v if isinstance(v, str) else repr(v))
     rep.instance()
     if rets <= platforms:
         rep.ok("fact platform_range: helpers.init_platform", f"returns only {sorted(rets)} ⊆ PLATFORMS", where=where(ip))
